@@ -112,7 +112,7 @@ def value_bytes(name, val):
     return None
 
 
-def value_expr(name, val):
+def value_expr(name, val, empty_from=None):
     """BASIC expression producing exactly that value."""
     t = complete(name)[-1]
     if t == '%':
@@ -121,7 +121,13 @@ def value_expr(name, val):
         return 'CVS(' + '+'.join('CHR$(%d)' % b for b in val) + ')'
     if t == '#':
         return 'CVD(' + '+'.join('CHR$(%d)' % b for b in val) + ')'
-    return '"' + val + '"'
+    # strings are COMPUTED so that they live in string space: a computed empty string carries the
+    # address of the lowest live string (the case the collector must keep apart, seed C11b)
+    if val == '':
+        # LEFT$(v$,0) of the string variable assigned last allocates nothing in between
+        return 'LEFT$(%s,0)' % empty_from if empty_from else 'LEFT$("x",0)'
+    k = max(1, len(val) // 2)
+    return '"%s"+"%s"' % (val[:k], val[k:])
 
 
 def rand_value(rng, name, counter):
